@@ -268,8 +268,15 @@ def run_history(rng, tier, rep, distinct):
     # before shows as a difference between the two histories
     rids = [('r%d' % i, base[j][0], base[j][1]) for i, j in enumerate(reversed(hist[:len(base)]))]
     rev = jv.corr_A_gen(rids, tag='Hrev')
+    # and short histories in fresh processes that START with each of the option-varying invocations in turn, followed by all of them
+    fidx = [j for j in range(len(base)) if base[j][3] in ('fcp', 'joiner')]
+    lead, lead_js = [], []
+    for a in fidx:
+        js = [a] + fidx
+        lead += jv.corr_A_gen([('l%d_%d' % (a, i), base[j][0], base[j][1]) for i, j in enumerate(js)], tag='Hlead')
+        lead_js += js
     first = {}
-    for r, j in list(zip(seq, hist)) + list(zip(conc, hist)) + list(zip(rev, reversed(hist[:len(base)]))):
+    for r, j in list(zip(seq, hist)) + list(zip(conc, hist)) + list(zip(rev, reversed(hist[:len(base)]))) + list(zip(lead, lead_js)):
         rep['A_cases'] += 1
         distinct.add((r['kind'], r['text']))
         toks = (r['impl'].get('gen') or {}).get('ok')
@@ -285,8 +292,8 @@ def run_history(rng, tier, rep, distinct):
             rep['A_diffs'].append({'family': 'history', 'kind': r['kind'], 'text': r['text'], 'code': r.get('code'), 'status': bad})
             if 'model value' not in bad or (j in first and first[j] != toks):
                 rep['witnesses'].append({'macro': gen.KIND_NAME[r['kind']], 'dsl': r['text'], 'why': bad,
-                                         'history': 'position %s of a history of %d expansions (3 shuffled passes over %d invocations, then 8 threads, then one reversed pass in a fresh process)' % (r['id'], len(ids), len(base))})
-    rep['families']['A:history'] = {'invocations': len(base), 'sequential_expansions': len(seq), 'concurrent_expansions_x8': len(conc), 'reversed_pass_expansions': len(rev)}
+                                         'history': 'position %s of a history of %d expansions (3 shuffled passes over %d invocations, then 8 threads, then one reversed pass and %d short histories with a different leading invocation, each in a fresh process)' % (r['id'], len(ids), len(base), len(fidx))})
+    rep['families']['A:history'] = {'invocations': len(base), 'sequential_expansions': len(seq), 'concurrent_expansions_x8': len(conc), 'reversed_pass_expansions': len(rev), 'leading_invocation_histories': len(fidx), 'their_expansions': len(lead)}
     rep['samples'].append({'stage': 'A/history', 'kind': base[0][0], 'dsl': base[0][1][:200], 'expanded_times': 3 + 8})
 
 
